@@ -35,13 +35,23 @@ def leVal : Bytes → Nat
   | [] => 0
   | b :: r => b + 256 * leVal r
 
+/-- `-2^31 ≤ v < 2^31` (stated on the natural parts, which keeps the test cheap to evaluate on `↑n`) -/
+def fitsInt32 (v : Int) : Prop := v.toNat < 2147483648 ∧ (-v).toNat ≤ 2147483648
+
+instance (v : Int) : Decidable (fitsInt32 v) := inferInstanceAs (Decidable (_ ∧ _))
+
+/-- `-2^63 ≤ v < 2^63` -/
+def fitsInt64 (v : Int) : Prop := v.toNat < 9223372036854775808 ∧ (-v).toNat ≤ 9223372036854775808
+
+instance (v : Int) : Decidable (fitsInt64 v) := inferInstanceAs (Decidable (_ ∧ _))
+
 /-- `struct.pack('=i', v)`; `struct.error` outside the int32 range -/
 def writeInt32 (v : Int) : Option Bytes :=
-  if -2147483648 ≤ v ∧ v < 2147483648 then some (leBytes 4 (v % 4294967296).toNat) else none
+  if fitsInt32 v then some (leBytes 4 (v % 4294967296).toNat) else none
 
 /-- `struct.pack('=q', v)` -/
 def writeInt64 (v : Int) : Option Bytes :=
-  if -9223372036854775808 ≤ v ∧ v < 9223372036854775808 then some (leBytes 8 (v % 18446744073709551616).toNat) else none
+  if fitsInt64 v then some (leBytes 8 (v % 18446744073709551616).toNat) else none
 
 /-- `struct.unpack('=i', memview[off : off + 4])`; a short slice is a `struct.error` -/
 def readInt32 (bs : Bytes) : Option (Int × Bytes) :=
@@ -410,6 +420,30 @@ def decodeTuple : List HType → Bytes → Nat → Bytes → Option (List Value 
       | some (x, r) => (decodeTuple ts mb (i + 1) r).map fun (xs, r') => (x :: xs, r')
       | none => none
     | none => none
+end
+
+mutual
+/-- only the size limits of `EncOK` (int32 lengths, int64 dimensions, calls in range) — WITHOUT the restriction of n-d arrays to
+numeric element types: the domain of the full statement of the property -/
+def SizeOK : HType → Value → Prop
+  | _, .na => True
+  | .str, .str s => 4 * s.length < 2147483648
+  | .call, .call alleles phased => CallPack.InRange ⟨alleles, phased⟩
+  | .locus _, .locus contig _ => 4 * contig.length < 2147483648
+  | .interval t, .interval s e _ _ => SizeOK t s ∧ SizeOK t e
+  | .array t, .arr xs => xs.length < 2147483648 ∧ ∀ x ∈ xs, SizeOK t x
+  | .set t, .set xs => xs.length < 2147483648 ∧ ∀ x ∈ xs, SizeOK t x
+  | .dict k v, .dict es => es.length < 2147483648 ∧ ∀ p ∈ es, SizeOK k p.1 ∧ SizeOK v p.2
+  | .struct fs, .struct xs => SizeOKFields fs xs
+  | .tuple ts, .tup xs => SizeOKTuple ts xs
+  | .ndarray t _, .nd shape data _ => (∀ d ∈ shape, d < 9223372036854775808) ∧ ∀ x ∈ data, SizeOK t x
+  | _, _ => True
+def SizeOKFields : List (Str × HType) → List Value → Prop
+  | (_, t) :: fs, x :: xs => SizeOK t x ∧ SizeOKFields fs xs
+  | _, _ => True
+def SizeOKTuple : List HType → List Value → Prop
+  | t :: ts, x :: xs => SizeOK t x ∧ SizeOKTuple ts xs
+  | _, _ => True
 end
 
 /-- a field / element that may be `None` -/
